@@ -1082,6 +1082,9 @@ class X:
         if isinstance(a, VInt) and isinstance(b, VInt):
             return {ast.Lt: lambda: a.t < b.t, ast.LtE: lambda: a.t <= b.t,
                     ast.Gt: lambda: a.t > b.t, ast.GtE: lambda: a.t >= b.t}[type(op)]()
+        r = self.contract.compare_hook(self, op, a, b)
+        if r is not None:
+            return r
         raise Unsupported(f'comparison {type(op).__name__} on {type(a).__name__},{type(b).__name__}')
 
     def equal(self, a, b):
@@ -1412,6 +1415,9 @@ class Contract:
         return False
 
     def equal_hook(self, X, a, b):
+        return None
+
+    def compare_hook(self, X, op, a, b):
         return None
 
     def contains_hook(self, X, container, item):
